@@ -183,8 +183,11 @@ def plan(S, prop, mode, tier, avoid):
         radii = []
         nmatch = r.randrange(2, 7) if not (tier == "thorough" and chance(r, 0.12)) else r.randrange(7, 16)
         for j in range(nmatch):
-            rk = wpick(r, [("scaled", 6), ("zero", 0.7), ("tiny", 1), ("big", 1), ("all", 0.5)])
-            if rk == "scaled":
+            rk = wpick(r, [("scaled", 6), ("zero", 0.7), ("tiny", 1), ("big", 1), ("all", 0.5), ("round", 0.8)])
+            if rk == "round":
+                # the radii people type: an arcsecond, an arcminute, a degree, whole numbers (int as often as float)
+                rad = pick(r, [1.0 / 3600, 2.0 / 3600, 1.0 / 60, 0.1, 0.5, 1.0, 1, 2, 5.0, 10, 30, 45.0, 60])
+            elif rk == "scaled":
                 rad = float("%.4g" % (scale * 10 ** r.uniform(-2.5, 0.5)))
             elif rk == "zero":
                 rad = 0.0
@@ -238,6 +241,8 @@ def plan(S, prop, mode, tier, avoid):
                      # the same output names as the matcher's calls use: one name is written by both entry points
                      "path": pick(r, ["c%d_o.txt" % c, "c%d_p0.txt" % c, "c%d_p1.txt" % c]),
                      "newbuf": chance(r, 0.15), "c": c}
+                if chance(r, 0.3):
+                    o["look"] = r.sample(["getters", "lookup", "intersect", "pickle"], r.randrange(1, 3))
                 ops.insert(r.randrange(1, len(ops) + 1), o)
         if max(radii) > 179.9 and chance(r, 0.7):
             base["anti"] = True
@@ -501,7 +506,7 @@ def do_match(run, op, M, htm, root, judge, c15):
         rad_arg = radius.copy()
     else:
         radius = np.full(n1, float(op["radius"]))
-        rad_arg = float(op["radius"]) if chance_det(op["rseed"]) else np.array([float(op["radius"])])
+        rad_arg = op["radius"] if chance_det(op["rseed"]) else np.array([float(op["radius"])])     # (an int stays an int)
     maxmatch = op["maxmatch"]
     sink = op["sink"]
     path = os.path.join(root, op["path"])
@@ -657,6 +662,22 @@ def do_oneshot(run, op, HH, htm, root, judge):
     if h["ncalls"] > 0:
         run.fault("oneshot_object_reused")
     h["ncalls"] += 1
+    for what in op.get("look", []):
+        # other uses of the same long-lived HTM object between matches: its cheap getters, id look-ups, a circle
+        # intersection, a trip through pickle (the object is then the restored copy)
+        try:
+            if what == "getters":
+                h["obj"].get_depth(), h["obj"].get_area(), h["obj"].get_ntriangles()
+            elif what == "lookup" and n1:
+                h["obj"].lookup_id(qra.copy(), qdec.copy())
+            elif what == "intersect" and n1:
+                h["obj"].intersect(float(qra[0]), float(qdec[0]), min(float(op["radius"]), 90.0 / 2 ** op["depth"] * 20))
+            elif what == "pickle":
+                import pickle
+                h["obj"] = pickle.loads(pickle.dumps(h["obj"]))
+        except Exception:
+            pass
+        run.fault("oneshot_object_used_for_something_else_in_between")
     kw = {"maxmatch": maxmatch}
     path = os.path.join(root, op["path"])
     if op["sink"] == "file":
